@@ -126,8 +126,12 @@ func FieldName(f reflect.StructField) (string, bool) {
 			}
 		}
 	}
+	// the library lowers an ASCII capital first letter and leaves every other name as it is
 	n := f.Name
-	return strings.ToLower(n[:1]) + n[1:], true
+	if n[0] >= 'A' && n[0] <= 'Z' {
+		return string(n[0]-'A'+'a') + n[1:], true
+	}
+	return n, true
 }
 
 func (c *absCtx) node(key absKey, build func(id int) AV) AV {
@@ -174,8 +178,8 @@ func (c *absCtx) abs(v reflect.Value) AV {
 			"year": x.Year(), "time": fmt.Sprintf("%02d%02d%02d", x.Hour(), x.Minute(), x.Second()),
 			"ns": fmt.Sprintf("%09d", x.Nanosecond()), "utc": x.Location() == time.UTC, "local": x.Location() == time.Local,
 			"instant": fmt.Sprintf("%d.%09d", x.Unix(), x.Nanosecond()),
-			"ldate": fmt.Sprintf("%04d%02d%02d", x.Local().Year(), int(x.Local().Month()), x.Local().Day()),
-			"ltime": fmt.Sprintf("%02d%02d%02d", x.Local().Hour(), x.Local().Minute(), x.Local().Second())}
+			"ldate":   fmt.Sprintf("%04d%02d%02d", x.Local().Year(), int(x.Local().Month()), x.Local().Day()),
+			"ltime":   fmt.Sprintf("%02d%02d%02d", x.Local().Hour(), x.Local().Minute(), x.Local().Second())}
 	case uuidType:
 		x := v.Interface().(uuid.UUID)
 		return AV{"k": "guid", "v": hex.EncodeToString(x[:])}
